@@ -166,6 +166,10 @@ func installPanicReporter(w *chainsim.World, m *chainsim.Monitor) {
 		msg := fmt.Sprintf("%s panicked while handling %q: %v\n%s", n.Name, what, v, buf)
 		m.Report("C09", "panic", panicSite(string(buf)), msg)
 		m.Report("C03", "panic", panicSite(string(buf)), msg)
+		if strings.Contains(panicSite(string(buf)), "pkg/consensus/sync.") {
+			// the process died inside the synchronization: whatever chain it was offered, it does not end on it
+			m.Report("C19", "sync-crashed", panicSite(string(buf)), msg)
+		}
 	}
 }
 
